@@ -374,7 +374,7 @@ pub fn gen_c01(cx: &mut Ctx) {
     for e in shared_exprs().into_iter().chain(shaped_exprs()) {
         conv_chain(cx, "C01", &Val::E(e), 2, true);
     }
-    for e in clause_exprs(&mut cx.rng) {
+    for e in clause_exprs(&mut cx.rng).into_iter().chain(idiom_exprs()) {
         conv_chain(cx, "C01", &Val::E(e), 1, true);
     }
     let pool = pool_names();
@@ -436,7 +436,7 @@ pub fn gen_c02(cx: &mut Ctx) {
     }
     // the table and diagram forms of an expression, as the crate's conversions build them
     {
-        let exprs: Vec<E> = wide_exprs(&mut cx.rng, &names(&["a", "b", "c"]), true).into_iter().chain(shared_exprs()).chain(shaped_exprs()).chain(clause_exprs(&mut cx.rng)).collect();
+        let exprs: Vec<E> = wide_exprs(&mut cx.rng, &names(&["a", "b", "c"]), true).into_iter().chain(shared_exprs()).chain(shaped_exprs()).chain(clause_exprs(&mut cx.rng)).chain(idiom_exprs()).collect();
         for e in exprs {
             for kind in ["T", "B"] {
                 for _ in 0..3 {
@@ -694,6 +694,23 @@ pub fn gen_c04(cx: &mut Ctx) {
             }
         }
     }
+    // spellings of one function with private inessential variables: all pairs, and against a near miss
+    for base in [lit("a"), and(vec![lit("a"), not(lit("b"))]), or(vec![lit("a"), lit("b")]), lit("a") ^ lit("b"), cst(true)] {
+        let vs = dead_branch_variants(&base);
+        let near = or(vec![base.clone(), and(vec![lit("p"), lit("q")])]);
+        for x in &vs {
+            for y in &vs {
+                emit_cmp(cx, &Val::E(x.clone()), &Val::E(y.clone()), true, 0);
+            }
+            emit_cmp(cx, &Val::E(x.clone()), &Val::E(near.clone()), true, 0);
+            emit_cmp(cx, &Val::E(near.clone()), &Val::E(x.clone()), true, 0);
+        }
+    }
+    for x in idiom_exprs() {
+        for y in idiom_exprs().into_iter().step_by(7) {
+            emit_cmp(cx, &Val::E(x.clone()), &Val::E(y), true, 0);
+        }
+    }
     let pool = pool_names();
     for _ in 0..cx.scale * if cx.thorough { 100000 } else { 3000 } {
         let kind = cx.rng.below(3);
@@ -795,6 +812,79 @@ pub fn clause_exprs(rng: &mut Rng) -> Vec<E> {
         out.push(if dual { and(clauses) } else { or(clauses) });
     }
     out
+}
+
+/// the shapes that rewriting "optimisations" pattern-match on, with operand lists of 1 to 4 members and
+/// their near misses: the expansion of xor (`Or(xs) & !And(xs)`), of equivalence, of implication,
+/// absorption, De Morgan pairs, multiplexers, dead branches
+pub fn idiom_exprs() -> Vec<E> {
+    let (a, b, c, d) = (lit("a"), lit("b"), lit("c"), lit("d"));
+    let ab = and(vec![a.clone(), not(b.clone())]);
+    let lists: Vec<Vec<E>> = vec![
+        vec![a.clone()],
+        vec![a.clone(), b.clone()],
+        vec![a.clone(), b.clone(), c.clone()],
+        vec![a.clone(), b.clone(), c.clone(), d.clone()],
+        vec![ab.clone(), c.clone(), d.clone()],
+        vec![not(a.clone()), b.clone(), not(c.clone())],
+        vec![a.clone(), a.clone(), b.clone()],
+    ];
+    let neg_all = |xs: &Vec<E>| -> Vec<E> { xs.iter().map(|x| not(x.clone())).collect() };
+    let mut out = vec![];
+    for xs in &lists {
+        let mut rev = xs.clone();
+        rev.reverse();
+        // xor expansion and its near misses
+        out.push(and(vec![or(xs.clone()), not(and(xs.clone()))]));
+        out.push(and(vec![not(and(xs.clone())), or(xs.clone())]));
+        out.push(and(vec![or(xs.clone()), not(and(rev.clone()))]));
+        out.push(and(vec![or(xs.clone()), not(and(xs.clone())), d.clone()]));
+        out.push(or(vec![and(xs.clone()), not(or(xs.clone()))]));
+        out.push(not(and(vec![or(xs.clone()), not(and(xs.clone()))])));
+        // equivalence expansion: all true or all false
+        out.push(or(vec![and(xs.clone()), and(neg_all(xs))]));
+        out.push(and(vec![or(xs.clone()), or(neg_all(xs))]));
+        // De Morgan pairs
+        out.push(not(and(xs.clone())));
+        out.push(or(neg_all(xs)));
+        out.push(not(or(xs.clone())));
+        out.push(and(neg_all(xs)));
+        out.push(not(and(neg_all(xs))));
+        // a negated node whose operands disagree on a variable
+        out.push(not(and(vec![or(xs.clone()), or(neg_all(xs))])));
+        out.push(and(vec![d.clone(), not(and(vec![a.clone(), b.clone(), or(vec![not(a.clone()), c.clone()])]))]));
+    }
+    // implication, absorption, multiplexer, consensus, dead branches
+    out.push(or(vec![not(a.clone()), b.clone()]));
+    out.push(or(vec![not(ab.clone()), c.clone()]));
+    out.push(or(vec![a.clone(), and(vec![a.clone(), b.clone()])]));
+    out.push(and(vec![a.clone(), or(vec![a.clone(), b.clone()])]));
+    out.push(or(vec![a.clone(), and(vec![not(a.clone()), b.clone()])]));
+    out.push(or(vec![and(vec![c.clone(), a.clone()]), and(vec![not(c.clone()), b.clone()])]));
+    out.push(or(vec![and(vec![a.clone(), c.clone()]), and(vec![b.clone(), not(c.clone())]), and(vec![a.clone(), b.clone()])]));
+    out.push(not(and(vec![a.clone(), not(a.clone())])));
+    out.push(not(and(vec![or(vec![a.clone(), b.clone()]), or(vec![not(a.clone()), c.clone()])])));
+    out.push((a.clone() ^ b.clone()) ^ (a.clone() ^ c.clone()));
+    out.push(or(vec![and(vec![a.clone(), c.clone()]), and(vec![b.clone(), d.clone()])]));
+    out.push(and(vec![a.clone(), c.clone()]) ^ and(vec![b.clone(), d.clone()]));
+    out
+}
+
+/// spellings of one function that mention private, inessential variables: every pair of them is
+/// equivalent although the sets of mentioned variables only partly overlap
+pub fn dead_branch_variants(base: &E) -> Vec<E> {
+    let (p, q) = (lit("p"), lit("q"));
+    vec![
+        base.clone(),
+        or(vec![base.clone(), and(vec![base.clone(), p.clone()])]),
+        and(vec![base.clone(), or(vec![base.clone(), q.clone()])]),
+        or(vec![base.clone(), and(vec![p.clone(), not(p.clone())])]),
+        and(vec![base.clone(), or(vec![q.clone(), not(q.clone())])]),
+        or(vec![and(vec![base.clone(), p.clone()]), and(vec![base.clone(), not(p.clone())])]),
+        or(vec![base.clone(), and(vec![q.clone(), cst(false)])]),
+        and(vec![base.clone(), or(vec![p.clone(), cst(true)])]),
+        and(vec![or(vec![base.clone(), p.clone()]), or(vec![base.clone(), not(p.clone())]), or(vec![q.clone(), not(q.clone())])]),
+    ]
 }
 
 /// pairs of clauses over {a, b, c} in every inclusion / prefix / permutation relation, as a DNF and as
@@ -986,6 +1076,27 @@ fn gen_quant(cx: &mut Ctx, prop: &str, ops: &[&str]) {
                     let set: BTreeSet<String> = vs.iter().cloned().collect();
                     for op in ops {
                         cx.emit(prop, op, &[Arg::F(x.clone()), Arg::S(set.clone())], nt);
+                    }
+                }
+            }
+        }
+    }
+    for e in idiom_exprs().into_iter().chain(clause_pairs().into_iter().step_by(5)) {
+        for e in [e.clone(), not(e)] {
+            for vs in [vec!["a"], vec!["b"], vec!["c"], vec!["a", "b"], vec!["c", "d"], vec!["a", "zz"]] {
+                let set: BTreeSet<String> = vs.iter().map(|x| x.to_string()).collect();
+                for kind in 0..3 {
+                    // expression derivatives quadruple per variable
+                    if kind == 0 && vs.len() > 1 && ops.contains(&"deriv") && tree_size(&e) > 30 {
+                        continue;
+                    }
+                    let x = match kind {
+                        0 => Val::E(e.clone()),
+                        1 => Val::T(TruthTable::from(&e)),
+                        _ => match Bdd::try_from(e.clone()) { Ok(b) => Val::B(b), Err(_) => continue },
+                    };
+                    for op in ops {
+                        cx.emit(prop, op, &[Arg::F(x.clone()), Arg::S(set.clone())], true);
                     }
                 }
             }
@@ -1299,7 +1410,7 @@ pub fn gen_c11(cx: &mut Ctx) {
     for e in shared_exprs().into_iter().chain(shaped_exprs()) {
         emit_nf(cx, &e);
     }
-    for e in clause_pairs().into_iter().chain(clause_exprs(&mut cx.rng).into_iter().step_by(3)) {
+    for e in clause_pairs().into_iter().chain(clause_exprs(&mut cx.rng).into_iter().step_by(3)).chain(idiom_exprs()) {
         emit_nf(cx, &e);
     }
     let ns = names(&["a", "b", "c", "x_10"]);
